@@ -220,8 +220,15 @@ func c06Check(c *ctx, name, text string, k int) (accepted bool, T *lr.ParsingTab
 	if len(L) >= 3 {
 		c.nontrivial(text)
 	}
-	tf, _ := lrTableFuncs(T)
+	tf, prodAt := lrTableFuncs(T)
 	terms := o.Terms
+	if iso, n, why := tablesIsomorphic(tf, prodAt, ref, terms, o.NTs); iso {
+		c.count("tables_isomorphic_to_the_reference_table_hence_decided_for_all_strings", 1)
+		c.count("table_entries_states_walked_in_lock_step", int64(n))
+	} else {
+		c.count("tables_not_isomorphic_to_the_reference_judged_on_strings_only", 1)
+		c.note("not isomorphic (%s): %s", why, firstLines(text, 3))
+	}
 	kk := k
 	for pow(len(terms), kk) > 8000 && kk > 2 {
 		kk--
@@ -284,6 +291,75 @@ func c06Check(c *ctx, name, text string, k int) (accepted bool, T *lr.ParsingTab
 		c.sample(map[string]any{"text": text, "sentences_le_k": len(L), "k": kk, "strings_driven": nStrings, "reference_states": ref.nstates})
 	}
 	return
+}
+
+// tablesIsomorphic walks emerge's table and the reference table in lock step from the initial states. When every
+// reachable entry corresponds (same kind, same production, shift/goto to corresponding states) the two tables behave
+// identically on EVERY input, not only on the strings up to the bound.
+func tablesIsomorphic(tf tableFuncs, prodAt func(int) cprod, ref *lalrTable, terms, nts []string) (bool, int, string) {
+	rtf := ref.funcs()
+	e2r := map[int]int{0: 0}
+	r2e := map[int]int{0: 0}
+	queue := []int{0}
+	pair := func(es, rs int) bool {
+		if x, ok := e2r[es]; ok {
+			return x == rs
+		}
+		if _, ok := r2e[rs]; ok {
+			return false
+		}
+		e2r[es], r2e[rs] = rs, es
+		queue = append(queue, es)
+		return true
+	}
+	for len(queue) > 0 {
+		es := queue[0]
+		queue = queue[1:]
+		rs := e2r[es]
+		for _, a := range append([]string{""}, terms...) {
+			ra := a
+			if a != "" {
+				ra = "t:" + a
+			}
+			ek, et, eok := tf.action(es, a)
+			rk, rt, rok := rtf.action(rs, ra)
+			if eok != rok {
+				return false, len(e2r), fmt.Sprintf("ACTION[%d,%q] defined: %v, reference state %d: %v", es, a, eok, rs, rok)
+			}
+			if !eok {
+				continue
+			}
+			if ek != rk {
+				return false, len(e2r), fmt.Sprintf("ACTION[%d,%q] is %c, reference %c", es, a, ek, rk)
+			}
+			switch ek {
+			case 's':
+				if !pair(et, rt) {
+					return false, len(e2r), fmt.Sprintf("ACTION[%d,%q] shifts to %d, which does not correspond to the reference's state %d", es, a, et, rt)
+				}
+			case 'r':
+				if prodAt(et).String() != ref.g.Prods[rt].String() {
+					return false, len(e2r), fmt.Sprintf("ACTION[%d,%q] reduces by %s, reference by %s", es, a, prodAt(et).String(), ref.g.Prods[rt].String())
+				}
+			}
+		}
+		for _, A := range nts {
+			eg, eok := tf.gotoF(es, A)
+			rg, rok := rtf.gotoF(rs, A)
+			if eok != rok {
+				if eok && !rok {
+					// an entry the reference does not have can never be consulted (no reduction by A returns to this state)
+					continue
+				}
+				return false, len(e2r), fmt.Sprintf("GOTO[%d,%s] defined: %v, reference: %v", es, A, eok, rok)
+			}
+			if eok && !pair(eg, rg) {
+				return false, len(e2r), fmt.Sprintf("GOTO[%d,%s] = %d does not correspond to the reference's %d", es, A, eg, rg)
+			}
+		}
+	}
+	// states that a decided conflict made unreachable are not walked: they can never be entered
+	return true, len(e2r), ""
 }
 
 func pow(b, e int) int {
@@ -710,8 +786,54 @@ var c06Families = []struct{ name, text string }{
 
 // random small grammars written with EBNF operators
 func genSmallGrammar(r *rng) string {
-	nts := append([]string{"start"}, shuffled(r, []string{"a", "b", "c", "d"})[:r.intn(4)]...)
-	terms := shuffled(r, []string{"x", "y", "z", "w"})[:1+r.intn(3)]
+	return genSizedGrammar(r, []string{"a", "b", "c", "d"}, []string{"x", "y", "z", "w"}, 0, 3)
+}
+
+// genLargeGrammar: 6-10 non-terminals over 3-6 terminals; judged by the lock-step walk of the two tables (all strings) and
+// by the strings up to a small bound.
+func genLargeGrammar(r *rng) string {
+	return genSizedGrammar(r, []string{"a", "b", "c", "d", "e", "f", "h", "i", "j"}, []string{"x", "y", "z", "w", "u", "v"}, 5, 4)
+}
+
+// genLLGrammar: every alternative of a rule starts with a different terminal and nothing is nullable, so the grammar is
+// LL(1), hence LR(1) and (nearly always) LALR(1): many states, few rejections. A small share of EBNF operators is
+// mixed in after the leading terminal.
+func genLLGrammar(r *rng) string {
+	nts := append([]string{"start"}, shuffled(r, []string{"a", "b", "c", "d", "e", "f", "h", "i", "j"})[:3+r.intn(6)]...)
+	terms := shuffled(r, []string{"x", "y", "z", "w", "u", "v", "p", "q"})[:3+r.intn(5)]
+	var b strings.Builder
+	b.WriteString("grammar g;\n")
+	for _, n := range nts {
+		fmt.Fprintf(&b, "%s = ", n)
+		alts := 1 + r.intn(3)
+		lead := shuffled(r, terms)
+		for i := 0; i < alts && i < len(lead); i++ {
+			if i > 0 {
+				b.WriteString(" | ")
+			}
+			fmt.Fprintf(&b, "%q ", lead[i])
+			for k := r.intn(4); k > 0; k-- {
+				s := fmt.Sprintf("%q", pick(r, terms))
+				if i > 0 && r.chance(1, 2) {
+					s = pick(r, nts)
+				}
+				switch r.intn(14) {
+				case 0:
+					s = "{{" + s + "}}"
+				case 1:
+					s = "(" + s + " | " + fmt.Sprintf("%q", pick(r, terms)) + ")"
+				}
+				b.WriteString(s + " ")
+			}
+		}
+		b.WriteString(";\n")
+	}
+	return b.String()
+}
+
+func genSizedGrammar(r *rng, ntPool, termPool []string, minNT, maxAlts int) string {
+	nts := append([]string{"start"}, shuffled(r, ntPool)[:minNT+r.intn(len(ntPool)-minNT+1)]...)
+	terms := shuffled(r, termPool)[:1+minNT/2+r.intn(len(termPool)-1-minNT/2)]
 	var b strings.Builder
 	b.WriteString("grammar g;\n")
 	if r.chance(1, 3) {
@@ -731,7 +853,7 @@ func genSmallGrammar(r *rng) string {
 	}
 	for _, n := range nts {
 		fmt.Fprintf(&b, "%s = ", n)
-		alts := 1 + r.intn(3)
+		alts := 1 + r.intn(maxAlts)
 		trailingEmpty := r.chance(1, 4)
 		for i := 0; i < alts; i++ {
 			if i > 0 {
@@ -779,6 +901,20 @@ func runC06(c *ctx) {
 		text := genSmallGrammar(r)
 		if c.mine() {
 			c06Check(c, fmt.Sprintf("rand%d", i), text, k)
+		}
+	}
+	r3 := c.rng("large")
+	for i := 0; i < c.n(600, 10000); i++ {
+		text := genLargeGrammar(r3)
+		if c.mine() {
+			c06Check(c, fmt.Sprintf("large%d", i), text, 4)
+		}
+	}
+	r4 := c.rng("ll")
+	for i := 0; i < c.n(400, 8000); i++ {
+		text := genLLGrammar(r4)
+		if c.mine() {
+			c06Check(c, fmt.Sprintf("ll%d", i), text, 4)
 		}
 	}
 	// the grammars C01 generates (EBNF-heavy)
